@@ -34,9 +34,10 @@ def gen_cases(tier, seed):
     # generic points moved by the seed phase; special points never move
     lats += [-75.0 + lat_off, -12.0 + lat_off, 15.0 + lat_off, 72.0 + lat_off]
     lons += [-135.0 + lon_off, 12.0 + lon_off, 151.0 + lon_off]
-    if tier == 'thorough':
-        lats += list(np.arange(-87.5, 90.0, 5.0) + lat_off * 0.1)
-        lons += list(np.arange(-170.0, 180.0, 20.0) + lon_off * 0.1)
+    # a regular grid on top (5 deg x 20 deg; the thorough tier halves both steps)
+    k = 1 if tier == 'quick' else 2
+    lats += list(np.arange(-87.5, 90.0, 5.0 / k) + lat_off * 0.1)
+    lons += list(np.arange(-170.0, 180.0, 20.0 / k) + lon_off * 0.1)
     return [dict(lat=la, lon=lo) for la, lo in itertools.product(sorted(set(lats)), sorted(set(lons)))]
 
 
@@ -261,4 +262,5 @@ def finalize(cases, results, tier):
     return dict(evaluations=sum(r.get('points', 0) for r in results),
                 distinct_nontrivial=sum(r.get('nt_points', 0) for r in results),
                 axes=dict(lat=LATS, lon=LONS, alt_round_trip=ALTS_RT, alt_gravity=ALTS_G,
-                          plus='4 generic latitudes and 3 generic longitudes shifted by the seed phase'))
+                          plus='4 generic latitudes and 3 generic longitudes shifted by the seed phase; regular grid 5 x 20 deg (quick) / 2.5 x 10 deg (thorough)'),
+                tier_bound='quick: 5 x 20 deg grid; thorough: 2.5 x 10 deg grid (both on top of the special points)')
